@@ -50,12 +50,29 @@ def site_key(chain, kind):
     return f"{outer[0]}: {outer[1]}"
 
 
+# exit codes: the one configured (77 / 78 in the base configurations), plus variants carried as
+# a sixth element of an item: another legal integer (0 is one), or "default" = not configured
+# (the documented default is 130)
+EXIT_CODE_VARIANTS = [0, 1, 255, "default"]
+
+
+def _exit_code_variant(base, rest):
+    kwargs = dict(base)
+    if rest:
+        if rest[0] == "default":
+            kwargs.pop("exit_code")
+            return 130, kwargs
+        kwargs["exit_code"] = int(rest[0])
+    return kwargs["exit_code"], kwargs
+
+
 def std_case(item):
     """item = (seed, target_iteration, fire_at, signum, opcodes). fire_at None -> counting run."""
     from nessai.flowsampler import FlowSampler
     from nessai.samplers.nestedsampler import NestedSampler as NS
 
-    seed, target, fire_at, signum, opcodes = item
+    seed, target, fire_at, signum, opcodes, *rest = item
+    expected_code, cfg_kwargs = _exit_code_variant(STD_CFG["kwargs"], rest)
     # ("resumed", T): the run is first terminated once by the real handler at an iteration boundary
     # and resumed; the window is iteration T of the RESUMED run (a job pre-empted twice)
     pre_signal = False
@@ -63,7 +80,7 @@ def std_case(item):
         pre_signal, target = True, target[1]
     runs.reset_globals()
     out = runs.scratch("c13")
-    kw = runs.std_base(seed, **STD_CFG["kwargs"])
+    kw = runs.std_base(seed, **cfg_kwargs)
     win = interrupt.Window(core.REPO, fire_at=fire_at, signum=signum, opcodes_in=COMMIT_FUNCS if opcodes else ())
     state = dict(pre=None, started=False, stopped=False, info={})
     o_check = NS.check_state
@@ -182,8 +199,8 @@ def std_case(item):
         res["site"] = key
         if handler_error is not None:
             res["errs"].append(("handler-does-not-exit-with-the-configured-code", handler_error))
-        elif exit_code != fs.exit_code:
-            res["errs"].append(("exit-code", f"{exit_code} vs configured {fs.exit_code}"))
+        elif exit_code != expected_code or type(exit_code) is not int:
+            res["errs"].append(("exit-code", f"{exit_code!r} vs configured {expected_code!r}"))
         inspect_and_continue_std(out, kw, state["pre"], res)
     for s, h in old_handlers.items():
         signal.signal(s, h)
@@ -297,10 +314,11 @@ def ins_case(item):
     from nessai.flowsampler import FlowSampler
     from nessai.samplers.importancesampler import ImportanceNestedSampler as INS
 
-    seed, target, fire_at, signum, opcodes = item
+    seed, target, fire_at, signum, opcodes, *rest = item
+    expected_code, cfg_kwargs = _exit_code_variant(INS_CFG["kwargs"], rest)
     runs.reset_globals()
     out = runs.scratch("c13i")
-    kw = runs.ins_base(seed, **INS_CFG["kwargs"])
+    kw = runs.ins_base(seed, **cfg_kwargs)
     win = interrupt.Window(core.REPO, fire_at=fire_at, signum=signum)
     state = dict(started=False, stopped=False, ckpt=None, existed=None)
     o_grad, o_fin = INS._compute_gradient, INS.finalise
@@ -408,8 +426,8 @@ def ins_case(item):
     errs = res["errs"]
     if handler_error is not None:
         errs.append(("handler-does-not-exit-with-the-configured-code", handler_error))
-    elif exit_code != fs.exit_code:
-        errs.append(("exit-code", f"{exit_code} vs configured {fs.exit_code}"))
+    elif exit_code != expected_code or type(exit_code) is not int:
+        errs.append(("exit-code", f"{exit_code!r} vs configured {expected_code!r}"))
     now = open(rf, "rb").read() if os.path.exists(rf) else None
     replaced = False
     if now != state["ckpt"] and state.get("pending") and now is not None:
@@ -474,6 +492,14 @@ def run(ctx):
             for i in idxs[:: max(1, len(idxs) // 12)]:
                 plans.append((kind, (seed, item[1], i, signal.SIGINT, item[4])))
                 plans.append((kind, (seed, item[1], i, signal.SIGALRM, item[4])))
+    # exit-code variants at the first site of one mid-run window of each sampler
+    for kind, t in (("std", 23), ("ins", 1)):
+        first = next((p for k, p in plans if k == kind and p[1] == t), None)
+        if first is None:
+            raise core.HarnessError(f"no site for the exit-code variants of {kind}")
+        for code in EXIT_CODE_VARIANTS:
+            plans.append((kind, tuple(first) + (code,)))
+            ctx.count("exit_code_variants")
     site_classes = set()
     for (kind, item), res in ctx.pmap(_dispatch, plans):
         ctx.count("evaluations")
@@ -487,7 +513,8 @@ def run(ctx):
                 continue
             seen.add(c)
             chain = [f"{q}:{ln}" for q, ln, src in (res["fired"] or [])][:4]
-            ctx.violation(f"{kind}:inconsistent-after-signal@{site}", f"{c}: {d} | signal {int(item[3])} before line [{site}] (iteration {item[1]}, frames {chain})", {"kind": kind, "item": [x if isinstance(x, (bool, str, list, tuple)) or x is None else int(x) for x in item]})
+            label = "inconsistent-after-signal" if len(item) <= 5 else f"exit-code-variant={item[5]}"
+            ctx.violation(f"{kind}:{label}@{site}", f"{c}: {d} | signal {int(item[3])} before line [{site}] (iteration {item[1]}, frames {chain})", {"kind": kind, "item": [x if isinstance(x, (bool, str, list, tuple)) or x is None else int(x) for x in item]})
             break
     ctx.set("distinct_nontrivial", len(site_classes))
     ctx.set("rule", "signal handler invoked before every line event of every nessai frame inside the chosen iterations, inside the initialisation of a fresh run of either sampler ('init': NestedSampler.initialise / ImportanceNestedSampler.initialise, i.e. proposals and initial points) and inside the finalisation of both samplers ('fin': from entry to NestedSampler.finalise / ImportanceNestedSampler.finalise until it returns, including the forced final checkpoint write) (loop bodies de-duplicated to first/second/last occurrence of each (function, line)); plus an iteration of a run that had already been terminated once by the handler and resumed (quick: a lattice of 40 of its sites); thorough adds more iterations, opcode-level events in consume_sample / insert_live_point / _NSIntegralState.increment and SIGINT/SIGALRM on a sub-lattice. Distinct/non-trivial: distinct sampler-level statements (site keys) interrupted")
